@@ -57,6 +57,10 @@ def ip_rule_ok(n, prev, cur):
     return po[:n - 1] == co[:n - 1]
 
 
+def Addr_str(a):
+    return "%d.%d.%d.%d:%d" % (a["A"], a["B"], a["C"], a["D"], a["P"]) if a.get("v4") else "non-IPv4 peer %d" % a.get("n", 0)
+
+
 def ua_rule_ok(accept, recorded, cur):
     return accept or recorded == 0 or recorded == cur
 
@@ -417,6 +421,7 @@ def oracle_C05(t):
 
 def oracle_C06(t):
     out = []
+    lin, frames = track(t)
     for i in range(t.n):
         st, o, cfg = t.steps[i], t.obs[i], t.cfgs[i]
         if st["kind"] != "req" or not t.plain(i):
@@ -428,6 +433,21 @@ def oracle_C06(t):
         r = pre.L(k)
         if r is None:
             continue
+        # judged against the previous accepted request of the session, as the
+        # client's own history records it
+        if i > 0 and 2 <= cfg["acceptip"] <= 4:
+            root = lin.find(k)
+            last = None
+            for r0, l0 in frames[i - 1]["last"].items():
+                if lin.find(r0) == root:
+                    last = l0
+            if last is not None and last["exact"] and root not in {lin.find(x) for x in frames[i - 1]["dead"]} \
+               and not ip_rule_ok(cfg["acceptip"], last["addr"], st["addr"]):
+                tgt = resolve(pre, k)
+                if tgt is not None and o["res"] == "sess" and kt(o["start"]["key"]) not in t.draws(i) or \
+                   (tgt is not None and o["res"] == "sess" and lin.find(kt(o["start"]["key"])) == root):
+                    out.append(F(i, "a request from %s was given the session although its previous accepted request came from %s (AcceptRemoteIP %d)"
+                                 % (Addr_str(st["addr"]), Addr_str(last["addr"]), cfg["acceptip"])))
         stale, ipok, uaok, idle, age = t.validity(i, r)
         if stale or idle >= cfg["expiry"]:
             continue
@@ -538,7 +558,15 @@ def track(t):
             cfg_i = t.cfgs[i]
             exact = held is not None and held["access"] >= norm({"created": 0, "access": o["now"]}, cfg_i)["access"] \
                 and held["ip"] == st["addr"] and held["ua"] == agent_hash(st.get("agent", 0))
-            gh["last"] = {"time": o["now"], "addr": st["addr"], "agent": st.get("agent", 0), "exact": exact and t.plain(i)}
+            if cfg_i["maxcache"] not in (0, 1):
+                # with the cache enabled and room for more than one session the
+                # package must hold the accepted request's bookkeeping
+                exact = True
+            # a request that did not come from the cookie-following client (a
+            # replayed or stolen cookie) may move the session's ID away from
+            # what that client holds: no expectation afterwards
+            forged_req = st.get("forge_raw") is not None or st.get("forge_key") is not None
+            gh["last"] = {"time": o["now"], "addr": st["addr"], "agent": st.get("agent", 0), "exact": exact and t.plain(i) and not forged_req}
             frame["lin_key"] = sk
             cur = sk
             for s_, r_ in zip(st.get("script") or [], o.get("script") or []):
@@ -724,7 +752,10 @@ def oracle_C08(t):
         post = t.post(i)
         if o["res"] == "panic" and st["kind"] in ("logoutuser", "refreshuser"):
             out.append(F(i, "%s panicked: %s" % (st["kind"], o.get("text", ""))))
-        if not t.plain(i):
+        if i > t.first_dirty or o["res"] in ("crashed", "panic") or st.get("crash") is not None:
+            continue
+        faulty = not t.plain(i)   # the first step with a store failure: its pre-state is clean
+        if faulty and st["kind"] != "req":
             continue
         if st["kind"] == "logoutuser" and o["res"] == "void":
             u = st.get("u", 0)
@@ -747,6 +778,8 @@ def oracle_C08(t):
         if not userops or "destroy" in [s_["op"] for s_ in ops]:
             continue
         j = userops[-1]
+        if faulty and not all(r_["kind"] in ("ok", "val") for r_ in res):
+            continue   # a later call reported the failure
         if res[j]["kind"] == "panic":
             out.append(F(i, "%s panicked: %s" % (ops[j]["op"], res[j].get("text", ""))))
         if res[j]["kind"] != "ok" or not o.get("final"):
@@ -953,6 +986,15 @@ def oracle_C11(t):
                         # GetAndDelete (D6) aside
                         if not _all_getdels(t, i):
                             out.append(F(i, "a failed save was acknowledged: every call returned success but the stored record differs from the session"))
+            if o["res"] in ("sess", "none") and all(r_["kind"] in ("ok", "val") for r_ in o.get("script") or []):
+                nonexcl_login = any(s_["op"] == "login" and not s_.get("excl") for s_ in st.get("script") or [])
+                for x in evs:
+                    if x["ok"] or (x["op"] == "save" and x.get("origin") in ("compact", "purge")):
+                        continue
+                    if x["op"] == "save" and x.get("origin") == "other" and nonexcl_login:
+                        continue  # LogIn drops the error of its own preliminary LogOut; the later saves supersede it
+                    out.append(F(i, "every call of the request returned success although the store failed (%s %s)" % (x["op"], kt(x["key"]))))
+                    break
             if o["res"] == "sess" and kt(o["start"]["key"]) in t.draws(i) and not (st.get("script")):
                 fk = kt(o["start"]["key"])
                 if fk not in post.store:
